@@ -21,7 +21,7 @@ def launch(kind, tier, nshards, compiled, extra=()):
         procs.append(subproc.popen_module("mc.modeworker", [kind, tier, sh, nshards] + list(extra), compiled))
     outs = []
     for p in procs:
-        out, err = p.communicate(timeout=3000)
+        out, err = p.communicate(timeout=1200)
         if p.returncode != 0:
             raise HarnessError(f"modeworker {kind} failed (compiled={compiled}): {err[-1500:]}")
         outs.append((json.loads(out.strip().splitlines()[-1]), err))
